@@ -69,7 +69,9 @@ VARIANTS = [
     V('c04-split-preprocess', 'C04', 'bad', 'R4.1', I, '    stack = engine.FilterStack(strip_semicolon=strip_semicolon)\n', '    stack = engine.FilterStack(strip_semicolon=strip_semicolon)\n    stack.preprocess.append(filters.KeywordCaseFilter())\n'),
     V('c04-split-only-ungrouped', 'C04', 'bad', 'R4.2', FS, '            stream = StatementSplitter().process(stream)\n', '            if not self._grouping:\n                stream = StatementSplitter().process(stream)\n'),
     V('c04-strip-semicolon-char', 'C04', 'bad', 'R4.1', I, 'return [str(stmt).strip() for stmt in stack.run(sql, encoding)]', "return [str(stmt).strip(';') for stmt in stack.run(sql, encoding)]"),
-    V('c04-dcl', 'C04', 'bad', 'R4.6', L, '        with cls._lock:\n            if cls._default_instance is None:', '        if cls._default_instance is None:\n          with cls._lock:\n            if cls._default_instance is None:'),
+    V('c04-dcl', 'C04', 'ok', None, L, '        with cls._lock:\n            if cls._default_instance is None:', '        if cls._default_instance is None:\n          with cls._lock:\n            if cls._default_instance is None:', 'double-checked locking is safe once the instance is published after initialisation (repo fix 0ab13df)'),
+    V('c04-dcl-early-publish', 'C04', 'bad', 'R4.6', L, "        with cls._lock:\n            if cls._default_instance is None:\n                instance = cls()\n                instance.default_initialization()\n                cls._default_instance = instance", "        if cls._default_instance is None:\n            with cls._lock:\n                if cls._default_instance is None:\n                    cls._default_instance = cls()\n                    cls._default_instance.default_initialization()", 'unlocked fast path + publication before initialisation'),
+    V('c15-early-publish', 'C15', 'bad', 'R15.7', L, "                instance = cls()\n                instance.default_initialization()\n                cls._default_instance = instance", "                cls._default_instance = cls()\n                cls._default_instance.default_initialization()", 'the defect fixed by 0ab13df: a failed first call leaves an empty lexer behind'),
     V('c04-ok-rename', 'C04', 'ok', '', I, '    stack = engine.FilterStack(strip_semicolon=strip_semicolon)\n    return [str(stmt).strip() for stmt in stack.run(sql, encoding)]', '    fstack = engine.FilterStack(strip_semicolon=strip_semicolon)\n    return [str(stmt).strip() for stmt in fstack.run(sql, encoding)]'),
     # ---- C05
     V('c05-begin-outside-create', 'C05', 'bad', 'R5.3', SP, "            self._begin_depth += 1\n            if self._is_create:\n                # FIXME(andi): This makes no sense.  ## this comment neither\n                return 1\n            return 0", "            self._begin_depth += 1\n            return 1"),
@@ -178,7 +180,7 @@ VARIANTS = [
     V('c19-unicode-escape', 'C19', 'bad', 'R19.4', L, "text = text.decode('latin-1')", "text = text.decode('unicode-escape')", 'the defect fixed by 17d69fb'),
     V('c19-ok-utf8-alias', 'C19', 'ok', '', L, "text = text.decode('utf-8')", "text = text.decode('utf8')"),
     # ---- C20
-    V('c20-no-lock', 'C20', 'bad', 'R20.1', L, "        with cls._lock:\n            if cls._default_instance is None:\n                cls._default_instance = cls()\n                cls._default_instance.default_initialization()", "        if cls._default_instance is None:\n            cls._default_instance = cls()\n            cls._default_instance.default_initialization()", 'the pre-0.5.0 getter'),
+    V('c20-no-lock', 'C20', 'bad', 'R20.1', L, "        with cls._lock:\n            if cls._default_instance is None:\n                instance = cls()\n                instance.default_initialization()\n                cls._default_instance = instance", "        if cls._default_instance is None:\n            cls._default_instance = cls()\n            cls._default_instance.default_initialization()", 'the pre-0.5.0 getter'),
     V('c20-lock-in-method', 'C20', 'bad', 'R20.1', L, "    _lock = Lock()\n", "    _lock = None\n"),
     V('c20-cache-in-self', 'C20', 'bad', 'R20.2', L, "        val = value.upper()\n        for kwdict", "        val = self._last = value.upper()\n        for kwdict"),
     V('c20-no-reset-in-case', 'C20', 'bad', 'R20.3', SP, "        self._in_case = 0\n        self._is_create = False", "        self._is_create = False"),
@@ -230,6 +232,27 @@ VARIANTS = [
     V('c07-none-into-token-index', 'C07', 'bad', 'R7.3', FR, "                            if comma is None:\n                                continue\n                            token = comma", "                            token = comma"),
     V('c07-validation-accepts-float-width', 'C07', 'bad', 'R7.2', FM, "    try:\n        indent_width = int(indent_width)\n    except (TypeError, ValueError):\n        raise SQLParseError('indent_width requires an integer')\n    if indent_width < 1:", "    if indent_width < 1:"),
     V('c06-reindent-without-strip', 'C06', 'bad', 'R6.3', FM, "    if options.get('strip_whitespace') or options.get('reindent'):", "    if options.get('strip_whitespace'):"),
+    # ---- round 5 rules
+    V('c01-error-run', 'C01', 'bad', 'R1.10', K, "    (r':=', tokens.Assignment),", "    (r'[\\x00-\\x08]+', tokens.Error),\n    (r':=', tokens.Assignment),", 'a run of control characters as one Error token'),
+    V('c01-error-single', 'C01', 'ok', None, K, "    (r':=', tokens.Assignment),", "    (r'[\\x00-\\x08]', tokens.Error),\n    (r':=', tokens.Assignment),", 'a one-character Error rule is what the fallback does anyway'),
+    V('c06-insert-after-drops', 'C06', 'bad', 'R6.6', S, "        if next_ is None:\n            self.tokens.append(token)\n        else:\n            self.tokens.insert(nidx, token)", "        if next_ is None:\n            self.tokens.append(token)\n        else:\n            self.tokens[where + 1:nidx] = [token]", 'the helper replaces the skipped whitespace (and whatever else lies there)'),
+    V('c06-insert-after-slice', 'C06', 'ok', None, S, "            self.tokens.insert(nidx, token)\n\n    def has_alias", "            self.tokens[nidx:nidx] = [token]\n\n    def has_alias", 'empty-slice assignment is an insertion'),
+    V('c06-insert-before-twice', 'C06', 'bad', 'R6.6', S, "        token.parent = self\n        self.tokens.insert(where, token)", "        token.parent = self\n        self.tokens.insert(where, token)\n        if token.is_newline:\n            self.tokens.insert(where, token)"),
+    V('c06-insert-before-noparent', 'C06', 'ok', None, S, "        token.parent = self\n        self.tokens.insert(where, token)", "        self.tokens.insert(where, token)\n        token.parent = self", 'statement order'),
+    V('c08-sublists-skip-comment', 'C08', 'bad', 'R8.5', S, "            if token.is_group:\n                yield token", "            if token.is_group and not isinstance(token, Comment):\n                yield token"),
+    V('c08-strip-no-descent', 'C08', 'bad', 'R8.5', FO, "        [self.process(sgroup) for sgroup in stmt.get_sublists()]\n        StripCommentsFilter._process(stmt)", "        [self.process(sgroup) for sgroup in stmt.get_sublists() if not isinstance(sgroup, sql.Parenthesis)]\n        StripCommentsFilter._process(stmt)"),
+    V('c10-where-open-extra', 'C10', 'bad', 'R10.7', S, "    M_OPEN = T.Keyword, 'WHERE'", "    M_OPEN = T.Keyword, ('WHERE', 'QUALIFY')"),
+    V('c10-case-close-extra', 'C10', 'bad', 'R10.7', S, "    M_OPEN = T.Keyword, 'CASE'\n    M_CLOSE = T.Keyword, 'END'", "    M_OPEN = T.Keyword, 'CASE'\n    M_CLOSE = T.Keyword, ('END', 'END CASE')"),
+    V('c12-offset-name', 'C12', 'bad', 'R12.7', K, "    'OFFSET': tokens.Keyword,", "    'OFFSET': tokens.Name,"),
+    V('c12-limit-builtin', 'C12', 'bad', 'R12.7', K, "    'LIMIT': tokens.Keyword,", "    'LIMIT': tokens.Name.Builtin,"),
+    V('c18-start-shadowed', 'C18', 'bad', 'R18.3', K, "    'SORT': tokens.Keyword,", "    'SORT': tokens.Keyword,\n    'START': tokens.Keyword,", 'an earlier dictionary re-types a DML word'),
+    V('c19-bool-type', 'C19', 'bad', 'R19.8', C, "        type=_boolean,\n        help='Insert", "        type=bool,\n        help='Insert", 'the defect fixed by 6590149'),
+    V('c19-bool-any-true', 'C19', 'bad', 'R19.8', C, "    if value.lower() in ('false', '0', 'no', 'off'):\n        return False", "    if value.lower() in ('0', 'no', 'off'):\n        return False\n    if value:\n        return True"),
+    V('c15-recurse-counter', 'C15', 'bad', 'R15.7', U, "        def wrapped_f(tlist):\n", "        depth = [0]\n\n        def wrapped_f(tlist):\n            depth[0] += 1\n"),
+    V('c05-dcl-early-publish', 'C05', 'bad', 'R5.9', L, "        with cls._lock:\n            if cls._default_instance is None:\n                instance = cls()\n                instance.default_initialization()\n                cls._default_instance = instance", "        if cls._default_instance is None:\n            with cls._lock:\n                if cls._default_instance is None:\n                    cls._default_instance = cls()\n                    cls._default_instance.default_initialization()"),
+    V('c17-parsestream-blockwise', 'C17', 'bad', 'R17.6', I, "    return stack.run(stream, encoding)", "    if hasattr(stream, 'readlines'):\n        return (s for block in stream.readlines(65536) for s in stack.run(block, encoding))\n    return stack.run(stream, encoding)"),
+    V('c14-clean-before-lex', 'C14', 'bad', 'R14.9', I, "    return stack.run(stream, encoding)", "    return stack.run(stream.replace('\\ufeff', '') if isinstance(stream, str) else stream, encoding)"),
+    V('c11-linewise-lexing', 'C11', 'bad', 'R11.9', FS, "            stream = lexer.tokenize(sql, encoding)", "            stream = (t for line in sql.splitlines(True) for t in lexer.tokenize(line, encoding)) if isinstance(sql, str) else lexer.tokenize(sql, encoding)"),
 ]
 
 WHOLE_FILE = {
